@@ -174,6 +174,30 @@ def intOfBase (s : Text) (b : Nat) : PyM Int :=
 /-- `str.upper()` restricted to ASCII letters (digits of `hex()` output). -/
 def upperAscii (s : Text) : Text := s.map (fun c => if 'a' ≤ c ∧ c ≤ 'z' then Char.ofNat (c.toNat - 32) else c)
 
+/-- `x in s` for two `str`: `x` occurs in `s` as a substring (the empty string occurs in every string). -/
+def strIn (x : Text) : Text → Bool
+  | [] => x.isEmpty
+  | c :: s => x.isPrefixOf (c :: s) || strIn x s
+
+/-- `s.startswith(p)` / `s.endswith(p)` for two `str` -/
+def startswith (s p : Text) : Bool := p.isPrefixOf s
+def endswith (s p : Text) : Bool := p.isSuffixOf s
+
+/-- a dict built as `for chars, f in pairs: d.update(dict.fromkeys(chars, f))`: every character of every `chars` is a key,
+    a later pair overwrites an earlier one.  `dispatchFind [chars₀, chars₁, …] k` is the index of the pair whose method `d[k]`
+    is (`none`: `k not in d`, `d[k]` raises KeyError); a key is one character, so a text of any other length is never found. -/
+def dispatchFindFrom (c : Char) : List Text → Nat → Option Nat
+  | [], _ => none
+  | t :: rest, i =>
+    match dispatchFindFrom c rest (i + 1) with
+    | some j => some j
+    | none => if t.contains c then some i else none
+
+def dispatchFind (table : List Text) (k : Text) : Option Nat :=
+  match k with
+  | [c] => dispatchFindFrom c table 0
+  | _ => none
+
 /-- `s.isalpha()`: not empty and every character alphabetic (`isAlpha` is `str.isalpha` of one character). -/
 def strIsAlpha (isAlpha : Char → Bool) (s : Text) : Bool := !s.isEmpty && s.all isAlpha
 
